@@ -50,6 +50,12 @@ CLAIMED = {
  "C07": ("store-effect model of plan-record writers and file removers, must-pass-through path search, commit-path guard analysis of the charge, record-field provenance and subtraction-shape check, ValidateBasic lower-bound analysis",
          "file removal returns size×replication to the owner's plan on every plan-paid removal path; the charge is behind plan found / not expired / within purchased space, never on the pay-once branch, and happens on every committing plan-paid path with the right operands; size and replication are validated positive at the door; a purchase carries usage over and refuses plans below it. The history-level equality usage = Σ footprints is not decided.",
          "DESIGN.md §5 C07"),
+ "C20": ("expression-DAG equivalence: canonical terms of pure string/hash builders (Sprintf split by constant format, hash typestate folded), loop-carried update term vs one-step combiner; same-value checks in the post handler",
+         "the path hasher's fold step equals the combiner applied to the accumulator and hex(SHA256(segment)), starts from the empty string and iterates Split(TrimSuffix(path,'/'),'/'); the post handler stores/returns/owner-hashes one value = combiner(HashParent, HashChild); the root uses the path hasher of a constant. Injectivity (collision resistance) is not decided.",
+         "DESIGN.md §5 C20"),
+ "C02": ("expression-DAG equivalence of the two leaf encoders and tree-hash/salt arguments; guard analysis of the challenge draw; parameter-validator lower-bound analysis; commit-path guard analysis of removal/burn",
+         "builder and verifier hash the same leaf term with the same tree hash and salting; every challenge draw is behind n>0 with n derived from FileSize and a validated-positive chunk-size parameter; removal and burn happen only on the miss branch. The proof-window clause over all schedules is NOT decided (schedule arithmetic).",
+         "DESIGN.md §5 C02"),
 }
 NA = {}
 props = [json.loads(l) for l in open('properties.jsonl')]
